@@ -26,6 +26,10 @@ def mx(N, maxsize, maxcnt=3, kinds=(0, 1, 4)):
                 Kinds=list(kinds), AllocIds=[0])
 
 
+def order(maxlen, alphabet=(1, 2, 3)):
+    return dict(Order=True, Alphabet=list(alphabet), MaxLen=maxlen)
+
+
 def drv(NA, NB=None, elem=0, **kw):
     d = dict(NA=NA, NB=NA if NB is None else NB, ELEM=elem)
     d.update(kw)
@@ -77,6 +81,10 @@ def jobs_for(tier, seed):
                      {'two', 'tracked', 'stdalloc'}, 'two N=2,2 std::allocator'))
         J.append(job(mx(2, 5), drv(2, elem=NT, MAXSZ=5), 0, 2500, {'max', 'tracked'}, 'max_size()=5, N=2'))
         J.append(job(mx(0, 6), drv(0, elem=TRIV, MAXSZ=6), 0, 1500, {'max', 'triv'}, 'max_size()=6, N=0 trivially copyable'))
+        # C16: all pairs of sequences over {1,2,3} up to length 3 (1600 pairs), equal and mixed inline capacities
+        J.append(job(order(3), drv(1, 3, elem=NT), 0, None, {'order', 'tracked'}, 'order: all pairs len<=3, N=1 vs 3, C++17 six operators'))
+        J.append(job(order(3), drv(2, 2, elem=TRIV, SPACESHIP=1, std='c++20'), 0, None, {'order', 'triv'}, 'order: all pairs len<=3, N=2,2, C++20 element with <=>'))
+        J.append(job(order(3), drv(3, 0, elem=NT, std='c++20'), 0, None, {'order', 'tracked'}, 'order: all pairs len<=3, N=3 vs 0, C++20 element without <=>'))
     else:
         for N, el, cp, nt in ((2, NT, True, True), (0, NT, True, True), (3, TM, True, False), (0, TM, True, False),
                               (2, MO, False, True), (3, MOT, False, False), (1, CO, True, True)):
@@ -102,6 +110,11 @@ def jobs_for(tier, seed):
         for (N, M) in ((2, 5), (0, 6), (3, 7)):
             J.append(job(mx(N, M), drv(N, elem=NT, MAXSZ=M), 1, None, {'max', 'tracked', 'fault'}, 'max_size()=%d N=%d' % (M, N)))
             J.append(job(mx(N, M), drv(N, elem=TRIV, MAXSZ=M), 0, None, {'max', 'triv'}, 'max_size()=%d N=%d trivially copyable' % (M, N)))
+        for (na, nb) in ((0, 0), (1, 3), (3, 1), (2, 2), (0, 3)):
+            for (el, ss, std, cxx) in ((NT, 0, 'c++17', 'g++'), (TRIV, 1, 'c++20', 'g++'), (NT, 0, 'c++20', 'g++'), (INT, 0, 'c++11', 'g++'),
+                                       (TRIV, 1, 'c++20', 'clang++'), (NT, 0, 'c++14', 'clang++')):
+                J.append(job(order(4), drv(na, nb, elem=el, SPACESHIP=ss, std=std, cxx=cxx), 0, None, {'order'},
+                             'order: all pairs len<=4, N=%d,%d elem=%d %s %s' % (na, nb, el, std, cxx)))
     return J
 
 
@@ -119,6 +132,8 @@ PROP_TAGS = {
     'C11': {'one'},
     'C12': {'max'},
     'C14': {'one', 'max'},
+    'C13': {'triv'},
     'C15': {'one'},
+    'C16': {'order', 'two'},
     'C18': {'fault'},
 }
